@@ -345,8 +345,8 @@ def _estimate_2dhist_shift(imgxy, refxy, searchrad=3.0, pscale=1.0, units=None):
         # only one non-zero bin:
         yp, xp = np.unravel_index(np.argmax(zpmat), zpmat.shape)
         maxval = zpmat[yp, xp]
-        xp = pscale * xp - searchrad
-        yp = pscale * yp - searchrad
+        xp = pscale * (xp - zpmat.shape[1] // 2)
+        yp = pscale * (yp - zpmat.shape[0] // 2)
 
         log.info(
             f"Found initial X and Y shifts of {xp:.4g}, {yp:.4g} ({units}) "
@@ -366,8 +366,8 @@ def _estimate_2dhist_shift(imgxy, refxy, searchrad=3.0, pscale=1.0, units=None):
         )
         return 0.0, 0.0
 
-    xp = pscale * xp - searchrad
-    yp = pscale * yp - searchrad
+    xp = pscale * (xp - zpmat.shape[1] // 2)
+    yp = pscale * (yp - zpmat.shape[0] // 2)
 
     if fit_status == 'WARNING:EDGE':
         log.info("Found peak in the 2D histogram lies at the edge of the "
